@@ -19,9 +19,13 @@ SPEC = {
             "whitebox/*.primitives: operands of ladderStep/diffAdd/double/mulA24 drawn by vlib.FieldOperand (limb edges, near-modulus, unreduced) or product-structured (ref/prodgen: the double-width product is chosen first, "
             "upper limbs at floor(m*2^64/38) and neighbours / all-ones / zero, factors found by integer square root or division, or x = 2^a +- 2^b +- small); non-trivial = at least one operand is not uniform. "
             "whitebox/fp*.products: (x, y) product-structured for Mul/Sqr of math/fp25519 and math/fp448 on the three back-ends; every case is non-trivial. "
+            "shared/* also draws peer values built so that the result is tiny (two representatives below the output width: < 19 resp. < 2^224+1) and the scalars j*l+-1 whose public key is the base point. "
+            "consequence/X-Wing: the decapsulated / encapsulated values are compared with an independent X-Wing reference for every u. "
+            "whitebox/*.toAffine and whitebox/fp*.canonical: final reduction on values with two representatives (non-trivial = tiny value). "
             "shared/*: the output buffer is pre-filled with drawn garbage or aliases the public or the secret input. "
             "Distinct by FNV-64 of (sub-check, k, u, ...).",
     "assumptions": COMMON_ASSUME + [
+        "X-Wing reference = ref/mlkem (ML-KEM-768) + ref/mont + x/crypto sha3, self-tested against the SHAKE128 digest of the specification's test-vectors.txt",
         "ref/mont (math/big ladder written from RFC 7748 section 5, self-tested against the RFC 7748 5.2 and 6 vectors and the 1/1000-iteration vectors) is the oracle for both functions; crypto/ecdh is a second oracle for X25519",
         "the generic back-end of the full ladder is evaluated through a 10-line copy of ladderMontgomery in the white-box overlay (checked at run time to agree with the package's own function); "
         "the field arithmetic of math/fp25519 and math/fp448 underneath toAffine follows that package's own dispatch (switched only by the GODEBUG/purego configurations of the thorough tier)",
